@@ -32,6 +32,10 @@ import tr_linesrc  # noqa: E402
 REPO = os.environ.get("EG_REPO", "/repo")
 LEAN = os.path.join(V, "lean")
 PROPS = os.path.join(LEAN, "EG", "Props", "C17", "GeneratedLine.lean")
+PROPS_THICK = os.path.join(LEAN, "EG", "Props", "C17", "GeneratedThick.lean")
+TP = "src/primitives/line/thick_points.rs"
+CM = "src/primitives/common/mod.rs"
+GX = "src/geometry/mod.rs"
 SCRATCH = "/tmp/vw/linegen-repo"
 BR = "src/primitives/line/bresenham.rs"
 PTS = "src/primitives/line/points.rs"
@@ -228,6 +232,130 @@ RENAME_NEW = """        let dir = Point::new(
 CASES = [(n, k, f, RENAME_OLD if (o is None and k == "harmless") else o, RENAME_NEW if (o is None and k == "harmless") else w, e)
          for (n, k, f, o, w, e) in CASES]
 
+# src/primitives/line/thick_points.rs (+ common/mod.rs, geometry/mod.rs) -> EG/Generated/ThickSrc.lean, theorems of GeneratedThick.lean
+THICK_CASES = [
+    ("next_parallel: the two sides' error variables exchanged", "mutation", TP,
+     "            LineSide::Left => (&mut self.left_error, self.flip),\n            LineSide::Right => (&mut self.right_error, !self.flip),",
+     "            LineSide::Left => (&mut self.right_error, self.flip),\n            LineSide::Right => (&mut self.left_error, !self.flip),",
+     ["next_parallel_src_eq_model"]),
+    ("next_parallel: `!self.flip` on the left side instead of the right", "mutation", TP,
+     "            LineSide::Left => (&mut self.left_error, self.flip),\n            LineSide::Right => (&mut self.right_error, !self.flip),",
+     "            LineSide::Left => (&mut self.left_error, !self.flip),\n            LineSide::Right => (&mut self.right_error, self.flip),",
+     ["next_parallel_src_eq_model"]),
+    ("next_parallel: the right side walks with `next_all`", "mutation", TP,
+     "LineSide::Right => self.right.previous_all(&self.perpendicular_parameters),", "LineSide::Right => self.right.next_all(&self.perpendicular_parameters),",
+     ["next_parallel_src_eq_model"]),
+    ("next_parallel: the error AFTER the decrease is returned", "mutation", TP,
+     "                            return (point, error_before_decrease);", "                            return (point, *error);",
+     ["next_parallel_src_eq_model"]),
+    ("next_parallel: the error is decreased when `!decrease_error`", "mutation", TP,
+     "                    if decrease_error {", "                    if !decrease_error {",
+     ["next_parallel_src_eq_model"]),
+    ("ParallelsIterator::new: threshold without the factor 2 (`i64::from(thickness).pow(2)`)", "mutation", TP,
+     "(i64::from(thickness) * 2).pow(2) * i64::from(line.delta().length_squared());", "i64::from(thickness).pow(2) * i64::from(line.delta().length_squared());",
+     ["ParallelsIterator_new_src_eq_model"]),
+    ("ParallelsIterator::new: accumulator starts at the full sum (no `/ 2`)", "mutation", TP,
+     "(parallel_parameters.error_step.minor + parallel_parameters.error_step.major) / 2;", "parallel_parameters.error_step.minor + parallel_parameters.error_step.major;",
+     ["ParallelsIterator_new_src_eq_model"]),
+    ("ParallelsIterator::new: `flip` compares with `+major`", "mutation", TP,
+     "            == -parallel_parameters.position_step.major;", "            == parallel_parameters.position_step.major;",
+     ["ParallelsIterator_new_src_eq_model"]),
+    ("ParallelsIterator::new: a centred stroke starts on the left", "mutation", TP,
+     "            StrokeOffset::None => LineSide::Right,", "            StrokeOffset::None => LineSide::Left,",
+     ["ParallelsIterator_new_src_eq_model"]),
+    ("ParallelsIterator::new: the centre line is not skipped", "mutation", TP,
+     "        self_.next_parallel(next_side.swap());\n", "",
+     ["ParallelsIterator_new_src_eq_model"]),
+    ("HORIZONTAL_LINE is two pixels long", "mutation", TP,
+     "Line::new(Point::zero(), Point::new(1, 0));", "Line::new(Point::zero(), Point::new(2, 0));",
+     ["HORIZONTAL_LINE_src_eq_model"]),
+    ("ParallelsIterator::next: stops at `>=`", "mutation", TP,
+     "if i64::from(self.thickness_accumulator).pow(2) > self.thickness_threshold {", "if i64::from(self.thickness_accumulator).pow(2) >= self.thickness_threshold {",
+     ["ParallelsIterator_next_src_eq_model"]),
+    ("ParallelsIterator::next: a Normal parallel adds the MAJOR error step", "mutation", TP,
+     "                self.thickness_accumulator += self.perpendicular_parameters.error_step.minor;", "                self.thickness_accumulator += self.perpendicular_parameters.error_step.major;",
+     ["ParallelsIterator_next_src_eq_model"]),
+    ("ParallelsIterator::next: the side is swapped for offset strokes too", "mutation", TP,
+     "        if self.stroke_offset == StrokeOffset::None {\n            self.next_side = self.next_side.swap();\n        }", "        self.next_side = self.next_side.swap();",
+     ["ParallelsIterator_next_src_eq_model"]),
+    ("ThickPoints::next: Extra parallels keep their full length", "mutation", TP,
+     "                if line_type == ParallelLineType::Extra {\n                    self.parallel_points_remaining -= 1;\n                }\n", "",
+     ["ThickPoints_next_src_eq_model"]),
+    ("ThickPoints::next: Normal parallels are shortened instead", "mutation", TP,
+     "                if line_type == ParallelLineType::Extra {\n                    self.parallel_points_remaining -= 1;", "                if line_type == ParallelLineType::Normal {\n                    self.parallel_points_remaining -= 1;",
+     ["ThickPoints_next_src_eq_model"]),
+    ("ThickPoints::new: starts with one point remaining", "mutation", TP,
+     "            parallel_points_remaining: 0,", "            parallel_points_remaining: 1,",
+     ["ThickPoints_new_src_eq_model"]),
+    ("LineSide::swap is the identity (common/mod.rs)", "mutation", CM,
+     "            Self::Left => Self::Right,\n            Self::Right => Self::Left,", "            Self::Left => Self::Left,\n            Self::Right => Self::Right,",
+     ["LineSide_swap_src_eq_model"]),
+    ("length_squared: `x^2 + y` (geometry/mod.rs)", "mutation", GX,
+     "self.x.pow(2) + self.y.pow(2)", "self.x.pow(2) + self.y",
+     ["length_squared_src_eq_model"]),
+    ("ParallelsIterator: an override of `Iterator::last` added (no translated body changes)", "mutation", TP,
+     "        Some(ret)\n    }\n}\n", "        Some(ret)\n    }\n\n    fn last(self) -> Option<Self::Item> {\n        None\n    }\n}\n",
+     ["thick_untranslated_pinned"]),
+    ("next_parallel: locals renamed (`error` -> `err`, `point` -> `pt`)", "harmless", TP, None, None, []),
+    ("ParallelsIterator::next: `return None` written as `if .. else`-free early return with a local", "harmless", TP,
+     "        if i64::from(self.thickness_accumulator).pow(2) > self.thickness_threshold {\n            return None;\n        }",
+     "        let acc = i64::from(self.thickness_accumulator);\n        if acc.pow(2) > self.thickness_threshold {\n            return None;\n        }",
+     []),
+    ("ParallelsIterator::new: two independent `let`s reordered", "harmless", TP,
+     "        let parallel_parameters = BresenhamParameters::new(line);\n        let perpendicular_parameters = BresenhamParameters::new(&line.perpendicular());",
+     "        let perpendicular_parameters = BresenhamParameters::new(&line.perpendicular());\n        let parallel_parameters = BresenhamParameters::new(line);",
+     []),
+    ("ThickPoints::next: the length through a local", "harmless", TP,
+     "                self.parallel_points_remaining = self.parallel_length;", "                let len = self.parallel_length;\n                self.parallel_points_remaining = len;",
+     []),
+    ("ParallelsIterator::new: `next_side` by `if` on equality instead of `match`", "harmless", TP,
+     "        let next_side = match stroke_offset {\n            StrokeOffset::None => LineSide::Right,\n            StrokeOffset::Left => LineSide::Left,\n            StrokeOffset::Right => LineSide::Right,\n        };",
+     "        let next_side = if stroke_offset == StrokeOffset::Left {\n            LineSide::Left\n        } else {\n            LineSide::Right\n        };",
+     []),
+    ("next_parallel: a `while let` loop", "unknown", TP,
+     "        loop {\n            let point = match side {", "        while let Some(_x) = Some(1) {\n            let point = match side {",
+     []),
+    ("ThickPoints::next: `break` out of the loop", "unknown", TP,
+     "                self.parallel_points_remaining = self.parallel_length;", "                self.parallel_points_remaining = self.parallel_length;\n                if self.parallel_length == 0 { break; }",
+     []),
+    ("ParallelsIterator::new: a method the prelude does not know (`saturating_pow`)", "unknown", TP,
+     "(i64::from(thickness) * 2).pow(2)", "(i64::from(thickness) * 2).saturating_pow(2)",
+     []),
+]
+NP_OLD = """        let (error, decrease_error) = match side {
+            LineSide::Left => (&mut self.left_error, self.flip),
+            LineSide::Right => (&mut self.right_error, !self.flip),
+        };
+
+        loop {
+            let point = match side {
+                LineSide::Left => self.left.next_all(&self.perpendicular_parameters),
+                LineSide::Right => self.right.previous_all(&self.perpendicular_parameters),
+            };
+
+            match point {
+                BresenhamPoint::Normal(_) => {
+                    return (point, *error);
+                }
+                BresenhamPoint::Extra(_) => {
+                    if decrease_error {
+                        let error_before_decrease = *error;
+
+                        if self.parallel_parameters.decrease_error(error) {
+                            return (point, error_before_decrease);
+                        }
+                    } else if self.parallel_parameters.increase_error(error) {
+                        return (point, *error);
+                    };
+                }
+            }
+        }"""
+NP_NEW = NP_OLD.replace("error_before_decrease", "before").replace("decrease_error {", "dec {").replace("(error, decrease_error)", "(err, dec)") \
+    .replace("*error", "*err").replace("decrease_error(error)", "decrease_error(err)").replace("increase_error(error)", "increase_error(err)") \
+    .replace("let point =", "let pt =").replace("match point {", "match pt {").replace("(point,", "(pt,")
+THICK_CASES = [(n, k, f, NP_OLD if o is None else o, NP_NEW if o is None else w, e) for (n, k, f, o, w, e) in THICK_CASES]
+CASES = CASES + THICK_CASES
+
 
 def run(cmd, **kw):
     p = subprocess.run(cmd, stdout=subprocess.PIPE, stderr=subprocess.STDOUT, text=True, **kw)
@@ -257,6 +385,15 @@ def fresh_scratch():
     shutil.copytree(os.path.join(REPO, "core", "src"), os.path.join(SCRATCH, "core", "src"))
 
 
+# seeded changes that touch a translated file but change only WHERE an `i32` computation overflows: the prelude's `+ - * pow`
+# are the mathematical operations (as in every model; overflow is C08's topic), so the regenerated definition is provably
+# the same function and the proof tie cannot see them
+SEEDS_OUT_OF_SCOPE = {
+    "C08-r2-2": "squares the accumulator in `i32` before widening (`i64::from(acc.pow(2))`): differs from the original only by an i32 overflow",
+    "C17-r2-2": "the same patch as C08-r2-2",
+}
+
+
 def seed_cases():
     out = []
     sd = os.path.join(V, "seeded")
@@ -265,7 +402,7 @@ def seed_cases():
         if not os.path.exists(pf):
             continue
         txt = open(pf).read()
-        if any(("+++ b/" + rel) in txt for rel in tr_linesrc.FILES.values()):
+        if any(("+++ b/" + rel) in txt for rel in list(tr_linesrc.FILES.values()) + list(tr_linesrc.THICK_FILES.values())):
             out.append((f"seeded change {d}", "seed", pf, None, None, []))
     return out
 
@@ -276,9 +413,9 @@ def main():
     if only and only[0] == "--seeds":
         only = only[1:]
         cases = seed_cases()
-    rc, out = run(["lake", "build", "EG.Props.C17.GeneratedLine"], cwd=LEAN)
+    rc, out = run(["lake", "build", "EG.Props.C17.GeneratedLine", "EG.Props.C17.GeneratedThick"], cwd=LEAN)
     if rc != 0:
-        print("the unchanged tree does not build EG.Props.C17.GeneratedLine:\n" + out[-2000:])
+        print("the unchanged tree does not build EG.Props.C17.GeneratedLine / GeneratedThick:\n" + out[-2000:])
         return 2
     rc, lean_path = run(["lake", "env", "printenv", "LEAN_PATH"], cwd=LEAN)
     lean_path = lean_path.strip().splitlines()[-1]
@@ -286,15 +423,18 @@ def main():
     tmp = tempfile.mkdtemp(prefix="linedemo-")
     os.makedirs("/tmp/vw", exist_ok=True)
     theorems = list_theorems(PROPS)
+    theorems_thick = list_theorems(PROPS_THICK)
     bad = 0
     counts = {}
     try:
         fresh_scratch()
         files, info = tr_linesrc.generate(SCRATCH)
-        baseline = files["LineSrc.lean"]
+        baseline = files
         cur = open(os.path.join(LEAN, "EG", "Generated", "LineSrc.lean")).read()
-        print(f"baseline: {info.get('functions')} functions translated; identical to lean/EG/Generated/LineSrc.lean: {baseline == cur}")
-        if baseline != cur:
+        cur_t = open(os.path.join(LEAN, "EG", "Generated", "ThickSrc.lean")).read()
+        same0 = files["LineSrc.lean"] == cur and files["ThickSrc.lean"] == cur_t
+        print(f"baseline: {info.get('functions')} + {info.get('thick', {}).get('functions')} functions translated; identical to lean/EG/Generated/LineSrc.lean / ThickSrc.lean: {same0}")
+        if not same0:
             bad += 1
         for idx, (name, kind, rel, old, new, expect) in enumerate(cases):
             if only and not any(o in name for o in only):
@@ -315,8 +455,9 @@ def main():
                     continue
                 open(path, "w").write(src.replace(old, new))
             files, info = tr_linesrc.generate(SCRATCH)
-            failed = "failed" in info
-            same = files["LineSrc.lean"] == baseline
+            failed = "failed" in info or "thick_failed" in info
+            line_same = files["LineSrc.lean"] == baseline["LineSrc.lean"]
+            thick_same = files["ThickSrc.lean"] == baseline["ThickSrc.lean"]
             gen_dir = os.path.join(tmp, f"case{idx}")
             os.makedirs(os.path.join(gen_dir, "src", "EG", "Generated"))
             os.makedirs(os.path.join(gen_dir, "lib", "EG", "Generated"))
@@ -324,29 +465,45 @@ def main():
                 if e != "Generated":
                     os.symlink(os.path.join(real, "EG", e), os.path.join(gen_dir, "lib", "EG", e))
             for e in os.listdir(os.path.join(real, "EG", "Generated")):
-                if not e.startswith("LineSrc."):
+                if not ((e.startswith("LineSrc.") and not line_same) or (e.startswith("ThickSrc.") and not (line_same and thick_same))):
                     os.symlink(os.path.join(real, "EG", "Generated", e), os.path.join(gen_dir, "lib", "EG", "Generated", e))
             broken = set()
             env = dict(os.environ, LEAN_PATH=os.path.join(gen_dir, "lib") + ":" + lean_path)
-            if not same:
-                open(os.path.join(gen_dir, "src", "EG", "Generated", "LineSrc.lean"), "w").write(files["LineSrc.lean"])
-                rc1, out1 = run(["lean", "EG/Generated/LineSrc.lean", "-o", os.path.join(gen_dir, "lib", "EG", "Generated", "LineSrc.olean"),
-                                 "-i", os.path.join(gen_dir, "lib", "EG", "Generated", "LineSrc.ilean")], env=env, cwd=os.path.join(gen_dir, "src"))
+
+            def compile_gen(gname):
+                open(os.path.join(gen_dir, "src", "EG", "Generated", gname + ".lean"), "w").write(files[gname + ".lean"])
+                rc1, out1 = run(["lean", f"EG/Generated/{gname}.lean", "-o", os.path.join(gen_dir, "lib", "EG", "Generated", gname + ".olean"),
+                                 "-i", os.path.join(gen_dir, "lib", "EG", "Generated", gname + ".ilean")], env=env, cwd=os.path.join(gen_dir, "src"))
                 if rc1 != 0:
-                    broken.add("(LineSrc.lean does not compile: " + out1.strip().splitlines()[0][:160] + ")")
-                else:
-                    rc2, out2 = run(["lean", PROPS], env=env, cwd=LEAN)
-                    for m in re.finditer(r":(\d+):\d+: error", out2):
-                        ln = int(m.group(1))
-                        nm = None
-                        for (n, l) in theorems:
-                            if l <= ln:
-                                nm = n
-                        broken.add(nm or f"line {ln}")
+                    broken.add(f"({gname}.lean does not compile: " + out1.strip().splitlines()[0][:160] + ")")
+                return rc1 == 0
+
+            def check_props(pf, ths):
+                rc2, out2 = run(["lean", pf], env=env, cwd=LEAN)
+                for m in re.finditer(r":(\d+):\d+: error", out2):
+                    ln = int(m.group(1))
+                    nm = None
+                    for (n, l) in ths:
+                        if l <= ln:
+                            nm = n
+                    broken.add(nm or f"{os.path.basename(pf)} line {ln}")
+
+            # the thin-line theorems against a regenerated LineSrc; the thick-line theorems against a regenerated ThickSrc when
+            # LineSrc is unchanged (GeneratedThick.lean imports the compiled thin-line theorems, which are about the unchanged LineSrc)
+            if not line_same:
+                if compile_gen("LineSrc"):
+                    check_props(PROPS, theorems)
+            elif not thick_same:
+                if compile_gen("ThickSrc"):
+                    check_props(PROPS_THICK, theorems_thick)
             if kind == "mutation":
                 ok = (not failed) and all(e in broken for e in expect) and len(broken) > 0
             elif kind == "seed":
                 ok = len(broken) > 0        # caught: a theorem broke (or the translator refused, which breaks all)
+                oos = [r for k, r in SEEDS_OUT_OF_SCOPE.items() if name.endswith(" " + k)]
+                if oos:
+                    ok = not broken
+                    name += f"\n      (out of scope, expected to survive: {oos[0]})"
                 counts["refused" if failed else ("theorem" if broken else "missed")] = counts.get("refused" if failed else ("theorem" if broken else "missed"), 0) + 1
             elif kind == "harmless":
                 ok = (not failed) and not broken
@@ -355,7 +512,7 @@ def main():
             bad += 0 if ok else 1
             print(f"[{kind}] {name}")
             if failed:
-                print(f"      translator: translationFailed = {info.get('failed')}")
+                print(f"      translator: translationFailed = {info.get('failed') or info.get('thick_failed')}")
             print(f"      theorems that no longer build: {len(broken)}" + (": " + ", ".join(sorted(broken)[:8]) + (" ..." if len(broken) > 8 else "") if broken else " (all proofs survive)"))
             print(f"      {'as recorded' if ok else 'NOT AS RECORDED (expected ' + (', '.join(expect) if expect else kind) + ')'}")
     finally:
